@@ -1897,6 +1897,8 @@ Proof. split; reflexivity. Qed.
     opens, writes and closes the temporary file) to its end, rename included, and nothing else
     calls write_snapshot - so no two saves ever share the temporary file, and each save is the
     undisturbed attempt of [run_attempt], which is what [dump_always_complete] quantifies over *)
+Lemma gen_tmp_opened_afresh : Generated.rdb_tmp_opened_afresh = true.
+Proof. reflexivity. Qed.
 Lemma gen_saves_serialised :
   Generated.rdb_save_serialised = true /\ Generated.rdb_write_snapshot_callers = [bs "save"].
 Proof. split; reflexivity. Qed.
